@@ -22,6 +22,22 @@ def tokens(chk, alpha, maxlen, relevant, nontrivial, workers=12, timeout=1500):
 
 
 # --------------------------------------------------------------------------------------------------
+def diagnostic_treebuilder(chk, maxlen):
+    """Implementation-shaped builder model against the real builder: exact outcomes incl. error variants (rule 4.5: reported
+    in the evidence as a diagnostic, never part of the verdict)."""
+    try:
+        info, summ = vf.run_model(f"diag_treebuilder{maxlen}", "MC_TreeBuilder.tla",
+                                  {"MaxLen": maxlen, "AlphaName": "core", "Repaired": True}, chk.outdir, workers=16)
+        chk.extra["diagnostic_treebuilder_model"] = {"sequences": info["distinct"], "exact_outcomes_replayed": summ["cases"],
+                                                     "deviations_from_the_builder_model": summ["failure_count"],
+                                                     "note": "TreeBuilder.tla refines Grammar.tla on every sequence (TLC invariant); "
+                                                             "deviations here would mean the builder was refactored, not that a property fails"}
+        vf.log(f"[diagnostic] builder model: {summ['cases']} exact outcomes, {summ['failure_count']} deviations (not part of the verdict)")
+    except vf.ToolError as e:
+        chk.extra["diagnostic_treebuilder_model"] = {"error": str(e)[:300]}
+        vf.log(f"[diagnostic] builder model not evaluated: {str(e)[:200]}")
+
+
 def c13(chk):
     chk.rule = ("every token sequence up to the length bound over the named alphabets is classified by Grammar.tla; "
                 "non-trivial = distinct sequences of class IF (not derivable: unbalanced, missing operand, juxtaposition)")
@@ -33,6 +49,7 @@ def c13(chk):
         tokens(chk, "wide", 5, rel, ["if"], workers=16)
         tokens(chk, "call", 6, rel, ["if"], workers=16)
         tokens(chk, "assign", 5, rel, ["if"], workers=16)
+        diagnostic_treebuilder(chk, 5)
     traces(chk, "fuzz", "trace_fuzz", quick=(4, 2000), thorough=(16, 20000),
            note="random strings of up to 40 characters over lexer-relevant fragments: the specification classifies each "
                 "(lexical error / not derivable / well-formed / unspecified) and the recorded precompilation outcome must agree")
